@@ -13,29 +13,11 @@
 (* so the filter of the most recently created view is the filter of every  *)
 (* view.                                                                   *)
 (***************************************************************************)
-EXTENDS Integers, Sequences, FiniteSets, TLC, SequencesExt, FiniteSetsExt, Json, IOUtils
+EXTENDS ViewsBase
 
-CONSTANTS Species,      \* species ranks mentioned by the file
-          Unknown,      \* a label that occurs in no entry
-          ViewIds,
+CONSTANTS ViewIds,
           MaxEvents,
           SharedSlot
-
-Labels == Species \cup {Unknown}
-
-\* the parsed file: lists of [id, sp] (sp = tuple of species)
-Docs == {
-  [pair  |-> << [id |-> 1, sp |-> <<1, 1>>], [id |-> 2, sp |-> <<2, 1>>], [id |-> 3, sp |-> <<2, 3>>], [id |-> 4, sp |-> <<3, 3>>] >>,
-   embed |-> << [id |-> 5, sp |-> <<2>>], [id |-> 6, sp |-> <<1>>], [id |-> 7, sp |-> <<3>>] >>,
-   dens  |-> << [id |-> 8, sp |-> <<1>>], [id |-> 9, sp |-> <<3>>], [id |-> 10, sp |-> <<2>>] >>,
-   fs    |-> FALSE],
-  [pair  |-> << [id |-> 1, sp |-> <<1, 2>>], [id |-> 2, sp |-> <<2, 2>>] >>,
-   embed |-> << [id |-> 5, sp |-> <<1>>], [id |-> 6, sp |-> <<2>>] >>,
-   dens  |-> << [id |-> 8, sp |-> <<1, 1>>], [id |-> 9, sp |-> <<1, 2>>], [id |-> 10, sp |-> <<2, 1>>], [id |-> 11, sp |-> <<2, 2>>] >>,
-   fs    |-> TRUE] }
-
-ViewSpace == [mode : {"include", "exclude"}, S : SUBSET Labels]
-Lists == {"pair", "embed", "dens"}
 
 VARIABLES doc,     \* the parsed file (never changes)
           views,   \* view id -> its filter, or NoView
@@ -45,14 +27,6 @@ VARIABLES doc,     \* the parsed file (never changes)
 
 vars == <<doc, views, slot, last, n>>
 NoView == [mode |-> "none", S |-> {}]
-
------------------------------------------------------------------------------
-(* the statement *)
-Mentions(e) == {e.sp[x] : x \in 1..Len(e.sp)}
-Keeps(v, e) == IF v.mode = "include" THEN Mentions(e) \subseteq v.S ELSE Mentions(e) \cap v.S = {}
-Filter(lst, v) == SelectSeq(lst, LAMBDA e : Keeps(v, e))
-\* deleting the unwanted entries from the file
-DeleteMentioning(d, v) == [pair |-> Filter(d.pair, v), embed |-> Filter(d.embed, v), dens |-> Filter(d.dens, v), fs |-> d.fs]
 
 -----------------------------------------------------------------------------
 (* the implementation: FilteredConfigParser *)
@@ -89,7 +63,6 @@ UnknownInert == (last.id # 0 /\ last.v.mode = "exclude" /\ last.v.S = {Unknown})
 
 -----------------------------------------------------------------------------
 (* cases for the replay: every (file, view) with the file after deletion *)
-DocSeq == SetToSeq(Docs)
 Case(dx, v) == [doc |-> dx, view |-> [mode |-> v.mode, S |-> SetToSeq(v.S)], filtered |-> DeleteMentioning(DocSeq[dx], v)]
 Emit == IF "EMIT" \in DOMAIN IOEnv /\ IOEnv.EMIT = "1"
         THEN /\ ndJsonSerialize(IOEnv.VERIF_OUT \o "/docs.ndjson", DocSeq)
